@@ -179,6 +179,11 @@ def gen(rng, tier):
             yield Case("c18re", [model, prev, params] + c.args[2:], c.nontrivial, c.tag + "-reinit")
         if rng.random() < 0.5 or prev is None:
             last[fam] = params
+        # one Pij object set to a sequence of lengths with returns to earlier ones (A B A A, A A B A, 0 A 0, ...)
+        if rng.random() < 0.15:
+            a, b, d = sorted({round(rng.uniform(0.01, 3), 3) for _ in range(6)})[:3] if True else (0.1, 0.7, 0.3)
+            pats = [[a, b, a, a], [a, a, b, a, b, b], [0.0, a, 0.0, a], [a, b, d, a, b, d], [b, a, b, a, a, d, d, a]]
+            yield Case("c18seq", [model, params, ",".join(repr(x) for x in rng.choice(pats))], True, c.tag + "-length-sequence")
 
 
 def check(tier, seed):
